@@ -324,7 +324,13 @@ func main() {
 	// generous limit: only a case that does not terminate on its own is a property failure (no false alarm
 	// from machine load).
 	for i := range cases {
-		if len(results[i].Fails) == 1 && strings.HasPrefix(results[i].Fails[0], "case did not terminate within") {
+		slow := false // a promptness failure measured while other cases were running is measured again alone
+		for _, m := range results[i].Fails {
+			if strings.Contains(m, "did not terminate promptly") {
+				slow = true
+			}
+		}
+		if slow || len(results[i].Fails) == 1 && strings.HasPrefix(results[i].Fails[0], "case did not terminate within") {
 			saved := s.CaseTimeout
 			if s.CaseTimeout == 0 {
 				s.CaseTimeout = 30 * time.Second
